@@ -372,7 +372,24 @@ def s10_generated(ctx):
                 x += ln + rng.choice([0.0, 0.0, 5.0])
         cases.append(("gtri", t, k, ip, pieces))
         reqs.append(f"gtri t={rat(t)} k={rat(k)} ip={int(ip)} split={'FAIL' if pieces is None else wlines(pieces)}")
+    # StackedTracesValidator.validation_method with both sub-tests scripted (the neighbour-set filter is real geometry on both sides)
+    for _ in range(budget(ctx.tier, 150, 2500)):
+        t, m, o = 0.01, 1.1, 50.0
+        r_ = t * o * m
+        geom = [(0.0, 0.0), (0.0, 10.0)]
+        cands = []
+        for _ in range(rng.randint(0, 3)):
+            d = rng.choice([0.0, 0.5, 0.9, 1.1, 3.0, 20.0]) * r_
+            y0 = float(rng.randint(1, 6))
+            cands.append([(d if d > 0 else -1.0, y0), (d + 3.0, y0 + rng.choice([0.0, 2.0]))])
+        if len({tuple(c) for c in cands}) < len(cands):
+            continue
+        along = rng.random() < 0.4
+        tri = [rng.random() < 0.25 for _ in cands]
+        cases.append(("gstackval", t, m, o, geom, cands, along, tri))
+        reqs.append(f"gstackval t={rat(t)} m={rat(m)} o={rat(o)} geom={wline(geom)} cands={wlines(cands)} along={int(along)} tri={','.join(str(int(b)) for b in tri)}")
     resps = ctx.gen.parallel(reqs)
+    orig_swb, orig_tri = tv.segment_within_buffer, tv.split_to_determine_triangle_errors
     orig_split = tvu.split
     orig_ul = tv.is_underlapping
     orig_cand = tv.TargetAreaSnapValidator.is_candidate_underlapping
@@ -381,7 +398,15 @@ def s10_generated(ctx):
     try:
         for c, req, resp in zip(cases, reqs, resps):
             res.evaluations += 1
-            if c[0] in ("gisul", "gtri"):
+            if c[0] == "gstackval":
+                _, t, m, o, geom, cands, along, tri = c
+                c_ls = [LineString(x) for x in cands]
+                tv.segment_within_buffer = lambda ls_, mls_, _al=along, **_: bool(_al and not mls_.is_empty)
+                tv.split_to_determine_triangle_errors = lambda g_, sp_, _c=c_ls, _t=tri, **_: _t[next(i for i, x in enumerate(_c) if x.equals(sp_))]
+                ok = tv.StackedTracesValidator.validation_method(LineString(geom), gpd.GeoSeries(c_ls), t, m, o, 10.0, 5.0)
+                want = f"ok={int(bool(ok))}"
+                res.nontrivial += int(not ok)
+            elif c[0] in ("gisul", "gtri"):
                 pieces = c[4]
 
                 class _R:
@@ -437,6 +462,7 @@ def s10_generated(ctx):
                 res.disagreements.append(Disagreement("S10-generated", {"stream": "S10-generated", "request": req}, resp.strip(), want, None,
                                                       "regenerated validator (Lean) and the Python method disagree: translator semantics wrong"))
     finally:
+        tv.segment_within_buffer, tv.split_to_determine_triangle_errors = orig_swb, orig_tri
         tvu.split = orig_split
         tv.is_underlapping = orig_ul
         tv.TargetAreaSnapValidator.is_candidate_underlapping = staticmethod(orig_cand)
